@@ -63,8 +63,8 @@ template <class P> struct S {
         }
     }
 };
-// the witness of theorem C25_invSym33_refuted replayed on the implementation (needs a build with NDEBUG; with assertions on,
-// SymMat::lowerIx aborts inside inverse(SymMat33))
+// regression case for the defect fixed by ee24b642 (inverse(SymMat33) read above-diagonal elements through operator()(i,j)):
+// the witness of C25_invSym33_before_fix_was_wrong must now invert correctly
 template <class P> static void witness() {
     SymMat<3,P> s(P(2), P(0.1), P(3), P(0.2), P(0.3), P(4)); Mat<3,3,P> sf(s), e = sf * Mat<3,3,P>(inverse(s)) - Mat<3,3,P>(1); ++evals;
     if (!(e.norm() <= 100 * NTraits<P>::getEps())) S<P>::fail("inverseSym33:not-inverse", "witness s = [2 .1 .2; .1 3 .3; .2 .3 4]: |s*inverse(s) - I| = %g", (double)e.norm());
